@@ -873,8 +873,6 @@ pub fn run(opts: &Options) -> FilterRepoResult<()> {
                 if !target.is_empty() {
                     branch_reset_targets.push((ref_name, target));
                 }
-            } else {
-                pending_branch_reset = Some(ref_name);
             }
         }
 
